@@ -35,6 +35,37 @@ R2 = X.all_matrices_up_to_relabelling(2, ALPHA)
 R3 = X.all_matrices_up_to_relabelling(3, ALPHA)
 MAX_MODEL_STATES = 1500
 EVEN_CPU_LIMIT = 1.5
+# CPU limits for building one automaton.  Rank <= 3: the construction takes < 0.1 s on every matrix over {2..7,inf}; a case
+# exceeding 10 s is reported as a failure ("no automaton"; after the first such case the limit drops to 2 s, then 0.2 s, so
+# that a tree on which the construction hangs everywhere is still reported within the time budget).  Rank >= 4: automata
+# can legitimately have 10^4..10^5 states (25 s); a case exceeding 3 s (0.7 s after eight such cases) is *skipped* and counted, never reported.
+_AUT = {"limit": 10.0, "hits": 0, "skips": 0}
+BIG_CPU_LIMIT = 3.0
+
+
+class NoAutomaton(Exception):
+    pass
+
+
+class Skipped(Exception):
+    pass
+
+
+def build_automaton(G, shortlex):
+    rank = len(G.ordered_gens)
+    if rank >= 4:
+        lim = BIG_CPU_LIMIT if _AUT["skips"] < 8 else 0.7
+        done, aut = X.limited(lim, lambda: G.automaton(shortlex=shortlex, even_length=False))
+        if not done:
+            _AUT["skips"] += 1
+            raise Skipped()
+        return aut
+    done, aut = X.limited(_AUT["limit"], lambda: G.automaton(shortlex=shortlex, even_length=False))
+    if not done:
+        _AUT["hits"] += 1
+        _AUT["limit"] = 2.0 if _AUT["hits"] < 10 else 0.2
+        raise NoAutomaton("automaton construction exceeded the CPU limit (does find_small_roots terminate?)")
+    return aut
 
 
 def _variants(rng, M):
@@ -55,18 +86,36 @@ def _is_small(M):
     return neg >= 1
 
 
-def matrices(rng, n, tier_all3=True):
-    """the quantifier: all rank 2 and rank 3 matrices over {2..7,inf} up to relabelling, samples of rank 4, 5"""
-    out = []
-    for M in R2 + R3:
-        out.append(_sym(_variants(rng, M)))
-    while len(out) < n:
+R3_LABELLED = [X.sym_matrix(3, list(l)) for l in itertools.product(ALPHA, repeat=3)]   # the shortlex language depends on the generator order
+
+
+def _big(rng):
+    while True:
         r = rng.choice([4, 4, 4, 5])
         M = X.rand_matrix(rng, r, finite=(2, 7), p_inf=0.2, p_two=0.35)
         if _is_small(M):
-            out.append(M)
+            return M
+
+
+def matrices(rng, n, exhaustive3=False):
+    """the quantifier: all rank-2 and rank-3 matrices over {2..7,inf} (rank 3: every labelling when `exhaustive3`, else one
+    random labelling per class and random further ones), samples of rank 4 and 5; infinity written 0/-1/-3 at random"""
+    out = [_sym(_variants(rng, M)) for M in R2]
+    if exhaustive3:
+        out += [_sym(_variants(rng, M)) for M in R3_LABELLED]
+        while len(out) < n:
+            out.append(_big(rng))
+        return out
+    for M in R3:
+        p = list(range(3))
+        rng.shuffle(p)
+        out.append(_sym(_variants(rng, [[M[p[i]][p[j]] for j in range(3)] for i in range(3)])))
     rng.shuffle(out)
-    return out[:n]
+    out = out[:max(0, n - n // 4)]
+    while len(out) < n:
+        out.append(_big(rng))
+    rng.shuffle(out)
+    return out
 
 
 # ------------------------------------------------------------------------------------------------
@@ -126,7 +175,10 @@ def gen_aut(rng, n):
 def run_aut(inp):
     G = X.build_group(inp["spec"])
     names = list(G.ordered_gens)
-    aut = G.automaton(shortlex=inp["lex"], even_length=False)
+    try:
+        aut = build_automaton(G, inp["lex"])
+    except Skipped:
+        return {"skipped": "large"}
     g = graph_of(aut, names)
     M = np.asarray(G.coxeter_matrix).tolist()
     form = [[-math.cos(math.pi / m) if m > 0 else -1 for m in row] for row in M]
@@ -137,7 +189,7 @@ def run_aut(inp):
 
 
 def lean_aut(inp, obs):
-    if "exc" in obs or obs["nstates"] > MAX_MODEL_STATES:
+    if "exc" in obs or "skipped" in obs or obs["nstates"] > MAX_MODEL_STATES:
         return []
     Mx, _ = X.expected_matrix_and_names(inp["spec"])
     fj, rational = form_json(Mx)
@@ -150,6 +202,8 @@ def judge_aut(inp, obs, lr):
     tags = {"lex": inp["lex"], "rank": len(inp["spec"]["M"])}
     if "exc" in obs:
         return {"expected": "an automaton", "observed": obs, "tags": {**tags, "exc": obs["exc"]}, "property_failure": True}
+    if "skipped" in obs:
+        return None
     Mx, names = X.expected_matrix_and_names(inp["spec"])
     if obs["M"] != Mx or obs["names"] != names:
         return {"expected": {"M": Mx, "names": names}, "observed": {"M": obs["M"], "names": obs["names"]}, "tags": {**tags, "constructor": True}}
@@ -189,7 +243,10 @@ def gen_even(rng, n):
 def run_even(inp):
     G = X.build_group(inp["spec"])
     names = list(G.ordered_gens)
-    aut = G.automaton(shortlex=inp["lex"], even_length=False)
+    try:
+        aut = build_automaton(G, inp["lex"])
+    except Skipped:
+        return {"skipped": "large"}
     # automaton_multiple re-expands vertices that are queued more than once: its running time is exponential in the
     # depth for large automata (a performance problem, not a language error) -> CPU-time limit, case skipped when hit
     done, ev = X.limited(EVEN_CPU_LIMIT, lambda: G.automaton(shortlex=inp["lex"], even_length=True))
@@ -288,7 +345,7 @@ def _tier():
 
 def gen_lang(rng, n):
     tier = _tier()
-    for M in matrices(rng, n):
+    for M in matrices(rng, n, exhaustive3=True):
         style = rng.choice(["alpha", "alphanum"])
         yield {"M": M, "style": style, "L": oracle_L(len(M), tier)}
 
@@ -318,8 +375,11 @@ def run_lang(inp):
     n = len(M)
     G = coxeter.CoxeterGroup(matrix=np.array(M), generator_style=inp["style"])
     names = list(G.ordered_gens)
-    geo = G.automaton(shortlex=False)
-    lex = G.automaton(shortlex=True)
+    try:
+        geo = build_automaton(G, False)
+        lex = build_automaton(G, True)
+    except Skipped:
+        return {"skipped": "large", "bad": {}}
     done, evs = X.limited(2 * EVEN_CPU_LIMIT, lambda: (G.automaton(shortlex=False, even_length=True),
                                                        G.automaton(shortlex=True, even_length=True)))
     A_geo, A_lex = accepted(geo, names, L), accepted(lex, names, L)
@@ -413,14 +473,14 @@ def judge_lang(inp, obs, lr):
 CLAUSES = [
     Clause("automaton_corr", "corr", gen_aut, run_aut, judge_aut, lean=lean_aut,
            site="coxeter.CoxeterGroup.automaton / coxeter_automaton.find_small_roots, generate_automaton",
-           budget={"quick": 120, "thorough": 1500},
+           budget={"quick": 100, "thorough": 1500},
            what="small roots (vectors, neighbours) and automaton (up to BFS renumbering) vs the Lean model over Q; all rank-2/3 "
                 "matrices over {2..7,inf} up to relabelling (inf written 0/-1/-3), samples of rank 4-5, both constructor routes"),
     Clause("even_corr", "corr", gen_even, run_even, judge_even, lean=lean_even,
-           site="coxeter.CoxeterGroup.automaton(even_length=True) / fsa.automaton_multiple", budget={"quick": 100, "thorough": 1200},
+           site="coxeter.CoxeterGroup.automaton(even_length=True) / fsa.automaton_multiple", budget={"quick": 80, "thorough": 1200},
            what="even_automaton of the implementation's table vs Lean evenAutomaton (up to BFS renumbering)"),
     Clause("language_oracle", "oracle", gen_lang, run_lang, judge_lang,
-           site="coxeter.CoxeterGroup.automaton", budget={"quick": 110, "thorough": 900},
+           site="coxeter.CoxeterGroup.automaton", budget={"quick": 400, "thorough": 1500},
            what="BOUNDED TEST of the unproved clause: accepted words up to length L vs independent Tits braid-move solver and "
                 "canonical-representation enumeration: geodesic = reduced, shortlex = least reduced expression (one per element), "
                 "even variants, growth counts, injectivity of canonical images"),
